@@ -403,15 +403,21 @@ func (o op) String() string {
 	return s
 }
 
-var storageWriters = map[string]bool{"setData": true, "removeData": true, "setState": true, "addFT": true, "subFT": true, "setFT": true}
 
-// slot written in the account's own storage by a storage-writing op
+// ownSlot is the slot of the account's own storage into which the operation puts a non-empty
+// value (-1: none). Writing "no value" over "no value" is a no-op in SetData.
 func (o op) ownSlot() int {
 	switch o.Kind {
-	case "setData", "removeData", "setState":
+	case "setData":
+		if len(o.Val) > 0 {
+			return o.K
+		}
+	case "setState":
 		return o.K
-	case "addFT", "subFT", "setFT":
-		return 3
+	case "addFT", "setFT":
+		if o.Amt.Sign() > 0 {
+			return 3
+		}
 	}
 	return -1
 }
